@@ -9,4 +9,117 @@ def refExternalBits : Nat := 12
 def intBits : Nat := 32
 def pendingWordBits : Nat := 64
 
+set_option linter.unusedVariables false
+/-! isolation filters, isolation tags, mandatory-concurrency decisions, observer call sites: regenerated from the source text -/
+/-- `isolation!=no_isolation&&isolation!=task_accessor::isolation(*result)` -/
+def isoOwnOmit (iso tag : Nat) : Bool := ((iso != 0) && (iso != tag))
+/-- `!omit&&!task_accessor::is_proxy_task(*result)` -/
+def isoOwnPlain (omitted isProxy : Bool) : Bool := ((!omitted) && (!isProxy))
+/-- `omit` -/
+def isoOwnSkip (omitted : Bool) : Bool := omitted
+/-- `isolation==no_isolation||isolation==task_accessor::isolation(*result)` -/
+def isoStealOk (iso tag : Nat) : Bool := ((iso == 0) || (iso == tag))
+/-- `!task_accessor::is_proxy_task(*result)` -/
+def isoStealPlain (isProxy : Bool) : Bool := (!isProxy)
+/-- `!task_proxy::is_shared(tp.task_and_tag)||!tp.outbox->recipient_is_idle()||a.mailbox(slot_index).recipient_is_idle()` -/
+def isoStealProxyTake (shared destIdle victimIdle : Bool) : Bool := (((!shared) || (!destIdle)) || victimIdle)
+/-- `isolation!=no_isolation` -/
+def isoMailGuard (iso : Nat) : Bool := (iso != 0)
+/-- `task_accessor::isolation(*curr)!=isolation` -/
+def isoMailSkip (iso tag : Nat) : Bool := (tag != iso)
+/-- `dl_guard.old_execute_data_ext.isolation` -/
+def isoLoop (edIso : Nat) : Nat := edIso
+/-- `isolation` -/
+def isoArgOwn1 (iso : Nat) : Nat := iso
+/-- `isolation` -/
+def isoArgOwn2 (iso : Nat) : Nat := iso
+/-- `isolation` -/
+def isoArgIdle (iso : Nat) : Nat := iso
+/-- `isolation` -/
+def isoArgMail1 (iso : Nat) : Nat := iso
+/-- `isolation` -/
+def isoArgMail2 (iso : Nat) : Nat := iso
+/-- `isolation` -/
+def isoArgMail3 (iso : Nat) : Nat := iso
+/-- `isolation` -/
+def isoArgSteal1 (iso : Nat) : Nat := iso
+/-- `isolation` -/
+def isoArgSteal2 (iso : Nat) : Nat := iso
+/-- `isolation` -/
+def isoArgSteal3 (iso : Nat) : Nat := iso
+/-- `isolation` -/
+def isoArgCrit1 (iso : Nat) : Nat := iso
+/-- `isolation` -/
+def isoArgCrit2 (iso : Nat) : Nat := iso
+/-- `isolation` -/
+def isoArgCrit3 (iso : Nat) : Nat := iso
+/-- `fifo_allowed&&isolation==no_isolation` -/
+def isoFifoOk (fifoAllowed : Bool) (iso : Nat) : Bool := (fifoAllowed && (iso == 0))
+/-- `isolation!=no_isolation` -/
+def isoCritSpecific (iso : Nat) : Bool := (iso != 0)
+/-- `result&&task_accessor::isolation(*result)==isolation` -/
+def isoCritMatch (nonNull : Bool) (iso tag : Nat) : Bool := (nonNull && (tag == iso))
+/-- `tls->my_task_dispatcher->m_execute_data_ext.isolation` -/
+def tagSpawn (edIso : Nat) : Nat := edIso
+/-- `ed.isolation` -/
+def tagSpawnAff (edIso : Nat) : Nat := edIso
+/-- `ed.isolation` -/
+def tagProxy (edIso : Nat) : Nat := edIso
+/-- `tls.my_task_dispatcher->m_execute_data_ext.isolation` -/
+def tagCritical (edIso : Nat) : Nat := edIso
+/-- `no_isolation` -/
+def tagEnqueue (edIso : Nat) : Nat := 0
+/-- `task_accessor::isolation(*t)` -/
+def edAfterOwn (tag : Nat) : Nat := tag
+/-- `task_accessor::isolation(*t)` -/
+def edAfterIdle (tag : Nat) : Nat := tag
+/-- `task_accessor::isolation(*crit_t)` -/
+def edAfterCrit (tag : Nat) : Nat := tag
+/-- `isolation?isolation:reinterpret_cast<isolation_type>(&d)` -/
+def isolateTag (iso fresh : Nat) : Nat := (if (iso != 0) then iso else fresh)
+/-- `current_isolation` -/
+def isolateSet (cur : Nat) : Nat := cur
+/-- `previous_isolation` -/
+def isolateRestore (prev : Nat) : Nat := prev
+/-- `work_type==work_enqueued&&my_num_slots>my_num_reserved_slots` -/
+def advMandCond (enq : Bool) (numSlots reserved : Nat) : Bool := (enq && (decide (numSlots > reserved)))
+/-- `is_mandatory_needed||are_workers_needed` -/
+def advReports (m w : Bool) : Bool := (m || w)
+/-- `is_mandatory_needed?1:0` -/
+def advMandDelta (m : Bool) : Int := ((if m then 1 else 0) : Int)
+/-- `are_workers_needed?my_max_num_workers:0` -/
+def advWorkersDelta (w : Bool) (maxW : Nat) : Int := ((if w then maxW else 0) : Int)
+/-- `is_mandatory_needed&&is_arena_workerless()` -/
+def advOverrideCond (m workerless : Bool) : Bool := (m && workerless)
+/-- `1` -/
+def advOverrideVal : Int := (1 : Int)
+/-- `!has_enqueued_tasks()` -/
+def oowMandPred (hasEnq : Bool) : Bool := (!hasEnq)
+/-- `!has_tasks()` -/
+def oowPoolPred (hasTasks : Bool) : Bool := (!hasTasks)
+/-- `disable_mandatory||release_workers` -/
+def oowReports (m w : Bool) : Bool := (m || w)
+/-- `disable_mandatory?-1:0` -/
+def oowMandDelta (m : Bool) : Int := (if m then (-(1 : Int)) else (0 : Int))
+/-- `release_workers?-(int)my_max_num_workers:0` -/
+def oowWorkersDelta (w : Bool) (maxW : Nat) : Int := (if w then (-(maxW : Int)) else (0 : Int))
+/-- `disable_mandatory&&is_arena_workerless()` -/
+def oowOverrideCond (m workerless : Bool) : Bool := (m && workerless)
+/-- `-1` -/
+def oowOverrideVal : Int := (-(1 : Int))
+/-- `my_max_num_workers==0` -/
+def arenaWorkerless (maxW : Nat) : Bool := (maxW == 0)
+/-- `ref_param==ref_external&&!my_mandatory_concurrency.test()` -/
+def leaveCallsOow (external mandSet : Bool) : Bool := (external && (!mandSet))
+/-- `last==my_tail.load(std::memory_order_relaxed)` -/
+def obsEntrySkip (lastIsTail : Bool) : Bool := lastIsTail
+/-- `last==nullptr` -/
+def obsExitSkip (lastIsNull : Bool) : Bool := lastIsNull
+def obsEntryOnWorkerJoin : Bool := true
+def obsExitOnWorkerLeave : Bool := true
+def obsEntryOnExecuteJoin : Bool := true
+def obsExitOnExecuteLeave : Bool := true
+def obsExitOnThreadEnd : Bool := true
+def obsEntryOnActivate : Bool := true
+
 end TbbVerif.Generated.C16
